@@ -46,19 +46,45 @@ pub enum Interrupts {
     Mask(u64),
 }
 
-pub const ERR_KINDS: [io::ErrorKind; 12] = [
+pub const ERR_KINDS: [io::ErrorKind; 38] = [
     io::ErrorKind::NotFound,
     io::ErrorKind::PermissionDenied,
+    io::ErrorKind::ConnectionRefused,
     io::ErrorKind::ConnectionReset,
+    io::ErrorKind::HostUnreachable,
+    io::ErrorKind::NetworkUnreachable,
     io::ErrorKind::ConnectionAborted,
+    io::ErrorKind::NotConnected,
+    io::ErrorKind::AddrInUse,
+    io::ErrorKind::AddrNotAvailable,
+    io::ErrorKind::NetworkDown,
     io::ErrorKind::BrokenPipe,
+    io::ErrorKind::AlreadyExists,
+    io::ErrorKind::WouldBlock,
+    io::ErrorKind::NotADirectory,
+    io::ErrorKind::IsADirectory,
+    io::ErrorKind::DirectoryNotEmpty,
+    io::ErrorKind::ReadOnlyFilesystem,
+    io::ErrorKind::StaleNetworkFileHandle,
     io::ErrorKind::InvalidInput,
     io::ErrorKind::InvalidData,
     io::ErrorKind::TimedOut,
     io::ErrorKind::WriteZero,
-    io::ErrorKind::Other,
+    io::ErrorKind::StorageFull,
+    io::ErrorKind::NotSeekable,
+    io::ErrorKind::QuotaExceeded,
+    io::ErrorKind::FileTooLarge,
+    io::ErrorKind::ResourceBusy,
+    io::ErrorKind::ExecutableFileBusy,
+    io::ErrorKind::Deadlock,
+    io::ErrorKind::CrossesDevices,
+    io::ErrorKind::TooManyLinks,
+    io::ErrorKind::ArgumentListTooLong,
+    io::ErrorKind::Unsupported,
     io::ErrorKind::UnexpectedEof,
-    io::ErrorKind::WouldBlock,
+    io::ErrorKind::OutOfMemory,
+    io::ErrorKind::InvalidFilename,
+    io::ErrorKind::Other,
 ];
 
 #[derive(Clone, Debug, PartialEq, Eq)]
